@@ -27,6 +27,12 @@ type Node struct {
 	Home     string
 	Restarts int
 	hooks    *TxHooks // optional ante/post observers (identical on all replicas)
+	// Prod: start the way elysd does - NewElysApp(loadLatest=true) loads the latest version inside
+	// the constructor and seals the app - with nothing of the harness installed. Code that runs in
+	// the constructor after the load (and anything else the harness's two-step start-up would skip)
+	// is then part of every start and restart of this node. Only for replicas, and only in runs
+	// without exact gas cuts (those need the harness's ante wrapper on every node).
+	Prod bool
 }
 
 // Block is what the simulated consensus engine hands to every node.
@@ -55,11 +61,24 @@ func simHome() string {
 }
 
 func newApp(db *SimDB, home string, opts ...func(*baseapp.BaseApp)) *elysapp.ElysApp {
+	return newAppLoad(db, home, false, opts...)
+}
+
+func newAppLoad(db *SimDB, home string, loadLatest bool, opts ...func(*baseapp.BaseApp)) *elysapp.ElysApp {
 	appOpts := make(simtestutil.AppOptionsMap)
 	appOpts[flags.FlagHome] = home
 	appOpts[server.FlagInvCheckPeriod] = 0
 	opts = append(opts, baseapp.SetChainID(ChainID))
-	return elysapp.NewElysApp(log.NewNopLogger(), db, nil, false, map[int64]bool{}, home, appOpts, opts...)
+	return elysapp.NewElysApp(log.NewNopLogger(), db, nil, loadLatest, map[int64]bool{}, home, appOpts, opts...)
+}
+
+// NewProdNode: a replica started the production way (see Node.Prod).
+func NewProdNode(name string, db *SimDB) (*Node, error) {
+	n := &Node{Name: name, DB: db, Home: simHome(), Prod: true}
+	if err := n.boot(); err != nil {
+		return nil, err
+	}
+	return n, nil
 }
 
 // NewNode builds (or re-builds, after a crash) a node over db.
@@ -77,6 +96,10 @@ func (n *Node) boot() (err error) {
 			err = fmt.Errorf("boot panic: %v\n%s", r, debug.Stack())
 		}
 	}()
+	if n.Prod {
+		n.App = newAppLoad(n.DB, n.Home, true)
+		return nil
+	}
 	app := newApp(n.DB, n.Home)
 	installGasCut(app) // on every node alike (see gascut.go)
 	if n.hooks != nil {
